@@ -282,8 +282,41 @@ func returnsOf(fn *ssa.Function) []*ssa.Return {
 	var out []*ssa.Return
 	allInstrs(fn, func(in ssa.Instruction) {
 		if r, ok := in.(*ssa.Return); ok {
+			if fn.Recover != nil && in.Block() == fn.Recover {
+				return // the synthetic return taken after a recovered panic, not a return statement
+			}
 			out = append(out, r)
 		}
 	})
+	return out
+}
+
+// returnValues resolves defer-spilled results: with a defer in the function go/ssa stores each result into a cell,
+// runs the defers and loads the cells again; the value returned is the last store in the return's own block.
+func returnValues(ret *ssa.Return) []ssa.Value {
+	out := make([]ssa.Value, len(ret.Results))
+	for i, r := range ret.Results {
+		out[i] = r
+		u, ok := r.(*ssa.UnOp)
+		if !ok || u.Op != token.MUL {
+			continue
+		}
+		a, ok := u.X.(*ssa.Alloc)
+		if !ok {
+			continue
+		}
+		var last ssa.Value
+		for _, in := range ret.Block().Instrs {
+			if in == ssa.Instruction(u) {
+				break
+			}
+			if st, ok := in.(*ssa.Store); ok && st.Addr == ssa.Value(a) {
+				last = st.Val
+			}
+		}
+		if last != nil {
+			out[i] = last
+		}
+	}
 	return out
 }
